@@ -109,8 +109,8 @@ fn expected_uses(mods: &[M], j: usize) -> BTreeMap<String, BTreeSet<String>> {
         let e = out.entry(norm_mod(p)).or_default();
         for s in syms {
             // the exact mangling is C16's business: compare with `-` / `_` removed
-            let rust = if s.starts_with(|c: char| c.is_lowercase()) { s.to_uppercase().replace('-', "") } else { s.replace('-', "") };
-            e.insert(rust);
+            // the exact mangling is judged below against the items that exist: here letters only
+            e.insert(s.replace('-', "").to_lowercase());
         }
         // a symbol spelled in capitals and hyphens only is taken for an information object class (which has no item
         // of its own in the bindings): the whole clause is then imported as `*` (Gen/Imports.classLike; the same
@@ -130,7 +130,7 @@ fn expected_uses(mods: &[M], j: usize) -> BTreeMap<String, BTreeSet<String>> {
                             if q != j && td.kind == Kind::Type && !imported.contains(t) {
                                 let e = out.entry(norm_mod(&mods[q].name)).or_default();
                                 if !e.contains("*") {
-                                    e.insert(t.replace('-', ""));
+                                    e.insert(t.replace('-', "").to_lowercase());
                                 }
                             }
                         }
@@ -156,7 +156,7 @@ fn observed_uses(items: &[(String, String)]) -> BTreeMap<String, BTreeSet<String
                 let e = out.entry(norm_mod(m)).or_default();
                 for s in syms.trim_start_matches('{').trim_end_matches('}').split(',') {
                     if !s.is_empty() {
-                        e.insert(s.replace('_', ""));
+                        e.insert(if s == "*" { s.to_string() } else { s.replace('_', "").to_lowercase() });
                     }
                 }
             }
@@ -244,6 +244,23 @@ pub fn run(cfg: &RunCfg) -> Report {
             rep.count(if exp.is_empty() { "uses:none" } else { "uses:some" });
             if exp != seen {
                 rep.unsat("", false, json!({"why": format!("module {}: IMPORTS {:?} should give use lines {:?}, generated {:?}", m.name, m.imports, exp, seen), "case": case()}));
+            }
+            // every symbol of a use line is the identifier of an item the named module really has
+            for (id, text) in fb.iter().filter(|(id, _)| id == "use") {
+                let _ = id;
+                let t: String = text.chars().filter(|c| !c.is_whitespace()).collect();
+                let Some(rest) = t.strip_prefix("usesuper::") else { continue };
+                let Some((pm, syms)) = rest.trim_end_matches(';').split_once("::") else { continue };
+                let Some((_, pitems)) = full.mods.iter().find(|(n, _)| n == &norm_mod(pm)) else { continue };
+                for sym in syms.trim_start_matches('{').trim_end_matches('}').split(',').filter(|x| !x.is_empty() && *x != "*") {
+                    rep.count("use-symbol");
+                    // (a definition that was not generated — with its warning — leaves a dangling name: not judged here)
+                    let norm = |x: &str| x.replace('_', "").to_lowercase();
+                    let near: Vec<&String> = pitems.iter().map(|(pid, _)| pid).filter(|pid| norm(pid) == norm(sym)).collect();
+                    if !near.is_empty() && !near.iter().any(|pid| pid.as_str() == sym) {
+                        rep.unsat("", false, json!({"why": format!("module {}: `use super::{pm}::{{..}}` names `{sym}`, but the item of module {pm} is spelled {:?}", m.name, near), "case": case()}));
+                    }
+                }
             }
             // module-qualified references
             for d in m.defs.iter().filter(|d| d.shape == "UseQ") {
